@@ -1,5 +1,7 @@
 """C11  Every decoder terminates on every input; UPDATE decoding never raises."""
 import random
+
+from vlib import budget as tbox
 import struct
 
 from vlib import decoders, corpus, mutate
@@ -193,6 +195,8 @@ def run_shard(sh):
                             b'\x40\x01\x01\x00', b'\x00\x00\x00\x00\x00\x00\x00\x01'):
                     R.call(name, f, (pat * (n // len(pat) + 1))[:n])
             for _ in range(2500 if not full else 40000):
+                if tbox.expired():
+                    break
                 base = rng.choice(items)
                 d = mutate.random_mutation(base, rng)
                 if rng.random() < 0.1:
@@ -228,6 +232,8 @@ def run_shard(sh):
         fs = [(n, f) for n, f in decs if n.startswith('update.Update.parse[')]
         inr = 0
         for i in range(sh['n']):
+            if tbox.expired():
+                break
             base = rng.choice(ups)
             d = mutate.random_mutation(base, rng)
             if rng.random() < 0.5 and len(d) >= 4:
